@@ -345,7 +345,11 @@ where
             );
 
             let result: (i64,) = query_as(&sql).fetch_one(&mut **tx).await?;
-            Ok(result.0 as usize == dependencies.len())
+
+            // Dependencies form a set: a repeated entry still matches only one row of the ready
+            // table, so the row count is compared with the number of distinct dependencies.
+            let distinct: HashSet<&ID> = dependencies.iter().collect();
+            Ok(result.0 as usize == distinct.len())
         })
         .await
     }
